@@ -252,7 +252,8 @@ def sockEnqueue (s : Sock) (p : Pdu) : Option Sock :=
         else some s
       | .connect =>
         match p with
-        | .cc .. | .dm .. => some { s with recvq := s.recvq ++ [p] }
+        | .cc .. | .dm .. =>      -- only the first answer to the CONNECT counts
+          if s.recvq.isEmpty then some { s with recvq := s.recvq ++ [p] } else some s
         | _ => some s
       | .disconnect =>
         match p with
